@@ -33,10 +33,10 @@ type Logger struct {
 }
 
 func (l *Logger) DebugEnabled() bool                { return false }
-func (l *Logger) Debugf(string, ...interface{})      {}
-func (l *Logger) Infof(string, ...interface{})       {}
-func (l *Logger) Warnf(f string, a ...interface{})   { l.note(&l.Warns, "W ", f, a) }
-func (l *Logger) Errorf(f string, a ...interface{})  { l.note(&l.Errs, "E ", f, a) }
+func (l *Logger) Debugf(string, ...interface{})     {}
+func (l *Logger) Infof(string, ...interface{})      {}
+func (l *Logger) Warnf(f string, a ...interface{})  { l.note(&l.Warns, "W ", f, a) }
+func (l *Logger) Errorf(f string, a ...interface{}) { l.note(&l.Errs, "E ", f, a) }
 func (l *Logger) note(ctr *int, p, f string, a []interface{}) {
 	l.mu.Lock()
 	*ctr++
@@ -45,7 +45,11 @@ func (l *Logger) note(ctr *int, p, f string, a []interface{}) {
 	}
 	l.mu.Unlock()
 }
-func (l *Logger) Last() []string { l.mu.Lock(); defer l.mu.Unlock(); return append([]string(nil), l.last...) }
+func (l *Logger) Last() []string {
+	l.mu.Lock()
+	defer l.mu.Unlock()
+	return append([]string(nil), l.last...)
+}
 
 // ---------------------------------------------------------------------------
 // network
@@ -194,7 +198,11 @@ func (n *Net) Handler(id uint16) Handler { n.mu.Lock(); defer n.mu.Unlock(); ret
 
 func (n *Net) Sent() int { n.mu.Lock(); defer n.mu.Unlock(); return n.seq }
 
-func (n *Net) LogCopy() []*Frame { n.mu.Lock(); defer n.mu.Unlock(); return append([]*Frame(nil), n.Log...) }
+func (n *Net) LogCopy() []*Frame {
+	n.mu.Lock()
+	defer n.mu.Unlock()
+	return append([]*Frame(nil), n.Log...)
+}
 
 // ---------------------------------------------------------------------------
 // schedule
@@ -230,15 +238,15 @@ type Action struct {
 
 // Call is one API invocation (KeyGen, Sign, Synchronize...) made by the harness.
 type Call struct {
-	Name     string
-	Start    func(c *Call) // runs in its own goroutine
-	Started  bool
-	Done     bool
-	Err      error
-	Data     []byte
-	Panic    string
+	Name                  string
+	Start                 func(c *Call) // runs in its own goroutine
+	Started               bool
+	Done                  bool
+	Err                   error
+	Data                  []byte
+	Panic                 string
 	StartedAt, ReturnedAt time.Duration
-	mu       sync.Mutex
+	mu                    sync.Mutex
 }
 
 func (c *Call) Finish(data []byte, err error) {
@@ -274,18 +282,21 @@ type Driver struct {
 	// Deadline (virtual) after which the run is ended even if calls are pending.
 	HardStop time.Duration
 
-	pos       int
-	t0        time.Time
-	Trace     []TraceEntry
-	KeepTrace bool
-	Delivered []int // frame seqs in delivery order
-	Steps     int
+	Pos int // position in Sched.Choices (exported so that a follow-up driver can continue)
+	// StartAllFirst starts every call before anything is delivered.
+	StartAllFirst bool
+	t0            time.Time
+	Trace         []TraceEntry
+	KeepTrace     bool
+	Delivered     []int // frame seqs in delivery order
+	Steps         int
 	// Results
 	HandlerPanic   string // panic inside HandleMessage on the dispatcher goroutine
 	HandlerBlocked string // a HandleMessage call that did not return at quiescence
 	StepLimit      bool
 	Overtakes      int // deliveries of a frame sent before an already delivered frame
 	maxSeq         int
+	runStart       time.Time
 	Ticks          int
 }
 
@@ -293,9 +304,9 @@ func (d *Driver) next(total int) int {
 	if total <= 0 {
 		return 0
 	}
-	if d.pos < len(d.Sched.Choices) {
-		c := d.Sched.Choices[d.pos]
-		d.pos++
+	if d.Pos < len(d.Sched.Choices) {
+		c := d.Sched.Choices[d.Pos]
+		d.Pos++
 		if c < 0 {
 			c = -c
 		}
@@ -403,11 +414,19 @@ func (d *Driver) Run() {
 	if d.t0.IsZero() {
 		d.t0 = time.Now()
 	}
+	d.runStart = time.Now()
 	if d.Tick == 0 {
 		d.Tick = 200 * time.Millisecond
 	}
 	if d.MaxSteps == 0 {
 		d.MaxSteps = 200000
+	}
+	if d.StartAllFirst {
+		for _, c := range d.Calls {
+			if !c.Started {
+				d.StartCall(c)
+			}
+		}
 	}
 	for {
 		synctest.Wait()
@@ -429,7 +448,7 @@ func (d *Driver) Run() {
 				return
 			}
 		}
-		if d.HardStop > 0 && d.Now() > d.HardStop {
+		if d.HardStop > 0 && time.Since(d.runStart) > d.HardStop {
 			return
 		}
 		if d.Steps >= d.MaxSteps {
